@@ -410,128 +410,7 @@ def run_t6(repo: Repo, res: Result) -> None:
     res.floor("C01.T6", 3, 3)
 
 
-def run_search(repo: Repo, res: Result) -> None:
-    ms = S.models(repo)
-    n = 0
-    for m in ms:
-        fi = m.fi
-        H = atom(m.hier_atom) if m.hier_atom else None
-        # orientation of the hierarchy test
-        for hc in m.hier_calls:
-            a = [dotted(x) for x in hc.args]
-            want = [m.popped, m.neighbour_var] if m.direction == "succ" else [m.neighbour_var, m.popped]
-            n += 1
-            res.add(
-                "C01.S",
-                repo.key(fi, stmt_of(hc)) + " [hierarchy test orientation]",
-                a == want,
-                f"parent_child_relationship({', '.join(a)})" + ("" if a == want else f": expected ({', '.join(want)}) for a {'successor' if m.direction == 'succ' else 'predecessor'} expansion"),
-                where(fi, hc),
-                kind="structural",
-            )
-        for ev in m.events:
-            if not ev.in_neighbour_loop:
-                continue
-            n += 1
-            if H is None:
-                res.add("C01.S", repo.key(fi, stmt_of(ev.call)), False, f"{ev.kind} of `{ev.what}` although neighbours are never classified by {S.HIER}", where(fi, ev.call), kind="dominance")
-                continue
-            is_h = implies(ev.guard, H)
-            not_h = implies(ev.guard, f_not(H))
-            if ev.kind == "record":
-                ok = not_h
-                detail = "recorded only on the import (non-hierarchy) branch" if ok else f"a pair is recorded under `{ev.guard_text}`, which does not exclude hierarchy edges: a package would 'import' its own sub modules"
-                if ok:
-                    pair = S.record_pair(m, ev)
-                    want = (m.popped, m.neighbour_var) if m.direction == "succ" else (m.neighbour_var, m.popped)
-                    if pair != want:
-                        ok = False
-                        detail = f"recorded pair is {pair}, expected (importer, importee) = {want}"
-            elif ev.kind == "push":
-                if m.role in ("explicit", "submodules"):
-                    ok = is_h
-                    detail = "worklist extended along hierarchy edges only" if ok else f"`{ev.what}` is pushed under `{ev.guard_text}`: the search follows import edges and attributes imports of imported modules to the subject"
-                else:
-                    ok = is_h or not_h
-                    detail = "push classified by edge kind" if ok else f"`{ev.what}` is pushed before the edge kind is known (`{ev.guard_text}`)"
-            else:  # mark
-                pushes = [p for p in m.events if p.kind == "push" and p.what == ev.what]
-                ok = ev.what == m.popped or (bool(pushes) and implies(ev.guard, f_or([p.guard for p in pushes])))
-                detail = "only expanded nodes are marked visited" if ok else f"`{ev.what}` is marked visited under `{ev.guard_text}` without being pushed under the same condition: a module first seen through an import edge is never expanded"
-            res.add("C01.S", repo.key(fi, stmt_of(ev.call)) + f" [{ev.kind}]", ok, detail, where(fi, ev.call), kind="dominance")
-        # marks outside the neighbour loop: only the popped node
-        for ev in m.events:
-            if ev.kind == "mark" and not ev.in_neighbour_loop:
-                n += 1
-                ok = ev.what == m.popped
-                res.add("C01.S", repo.key(fi, stmt_of(ev.call)) + " [mark]", ok, "popped node marked visited" if ok else f"`{ev.what}` marked visited instead of the popped node", where(fi, ev.call), kind="structural")
-        if m.role == "explicit":
-            # S4: object set is the object's whole subtree; both endpoints must not be 'sub modules of' parents
-            rec = [e for e in m.events if e.kind == "record"]
-            obj_param = fi.param_names[2]
-            subj_param = fi.param_names[1]
-            obj_sets = [v for v, p in m.submodule_sets.items() if p == obj_param]
-            for e in rec:
-                n += 1
-                ok = bool(obj_sets) and implies(e.guard, atom(f"{m.neighbour_var} in {obj_sets[0]}"))
-                res.add(
-                    "C01.S",
-                    repo.key(fi, stmt_of(e.call)) + " [object subtree]",
-                    ok,
-                    f"target must lie in {S.SUBMODULES}(graph, {obj_param})" if ok else f"the recorded target is not restricted to the object's subtree {S.SUBMODULES}(graph, {obj_param}) (a named module stands for itself and all its descendants)",
-                    where(fi, e.call),
-                    kind="dominance",
-                )
-                excl = None
-                for s_ in own_nodes(fi.node):
-                    if isinstance(s_, ast.Assign) and isinstance(s_.value, ast.Call) and dotted(s_.value.func) == "get_parent_nodes":
-                        arg = s_.value.args[0] if s_.value.args else None
-                        if isinstance(arg, (ast.List, ast.Tuple)) and sorted(dotted(x) for x in arg.elts) == sorted([subj_param, obj_param]):
-                            excl = dotted(s_.targets[0])
-                n += 1
-                ok = excl is not None and implies(e.guard, f_and([f_not(atom(f"{m.popped} in {excl}")), f_not(atom(f"{m.neighbour_var} in {excl}"))]))
-                res.add(
-                    "C01.S",
-                    repo.key(fi, stmt_of(e.call)) + " [strict descendants]",
-                    ok,
-                    "'sub modules of X' excludes X itself on both sides" if ok else "the parent of a 'sub modules of' filter is not excluded on both sides of the recorded import",
-                    where(fi, e.call),
-                    kind="dominance",
-                )
-        if m.role == "other":
-            subj = fi.param_names[1] if m.direction == "succ" else fi.param_names[2]
-            own = [v for v, p in m.submodule_sets.items() if p == subj]
-            exc = list(m.accumulated_sets)
-            if not own or not exc:
-                raise AnalysisError(f"{fi.fq}: own-subtree / excluded sets not recognised")
-            for e in [e for e in m.events if e.kind == "record"]:
-                n += 1
-                goal = f_and([f_not(atom(f"{m.neighbour_var} in {exc[0]}")), f_not(atom(f"{m.neighbour_var} in {own[0]}"))])
-                ok = implies(e.guard, goal)
-                res.add(
-                    "C01.S",
-                    repo.key(fi, stmt_of(e.call)) + " [something else]",
-                    ok,
-                    "recorded only if the other end is neither inside the subject nor an excluded object" if ok else f"an import is reported as 'something else' under `{e.guard_text}`, which does not exclude the subject's own subtree `{own[0]}` and the objects `{exc[0]}`",
-                    where(fi, e.call),
-                    kind="dominance",
-                )
-            # the subject set skips exactly itself when accumulating the excluded set, and 'sub modules of' adjustments exist
-            for c in calls_in(fi.node):
-                if is_attr_call(c, "update") and dotted(c.func.value) == exc[0] and c.args and isinstance(c.args[0], ast.Call) and dotted(c.args[0].func) == S.SUBMODULES:
-                    n += 1
-                    x = dotted(c.args[0].args[1])
-                    a, b = sorted([x, subj])
-                    skip_ok = implies(guard_formula(fi, c), f_not(atom(f"{a} == {b}")))
-                    res.add(
-                        "C01.S",
-                        repo.key(fi, stmt_of(c)) + " [subject not excluded from itself]",
-                        skip_ok,
-                        "an object equal to the subject does not exclude the subject's own subtree" if skip_ok else "the subject's own subtree can be put into the excluded set (the alias 'anything' = 'except itself' would examine nothing)",
-                        where(fi, c),
-                        kind="dominance",
-                    )
-    res.floor("C01.S", 18, n)
+from .searchrules import run_search  # noqa: E402,F401  (rules C01.S live in rules/searchrules.py)
 
 
 def run(repo: Repo) -> Result:
